@@ -233,7 +233,7 @@ def id_suffix(prog, feat):
 
 def explore(rec):
     quick = rec.tier == "quick"
-    rec.hyp("junit-runs", case_st(), 2500 if quick else 40000)
+    rec.hyp("junit-runs", case_st(), 6000 if quick else 80000)
 
 
 def required_labels(tier):
